@@ -80,6 +80,7 @@ def extract_variant(tools_c):
         "acoshClamp": which("reb_orbit_from_particle acosh", ["ea = acosh((1.-o.d/o.a)/o.e);"],
                             ["double coshea = (1.-o.d/o.a)/o.e;", "ea = (coshea > 1.) ? acosh(coshea) : 0.;"]),
         "asymLe": which("reb_particle_from_orbit asymptote test", ["if(e*cos(f) < -1.){"], ["if(e*cos(f) <= -1.){"]),
+        "aStrict": which("reb_particle_from_orbit sign tests on a", ["if(a > 0.){", "if(a < 0.){"], ["if(a >= 0.){", "if(a <= 0.){"]),
         "palNewton": which("reb_tools_solve_kepler_pal update", ["qn -= fd00*f0+fd10*f1;", "pn -= fd01*f0+fd11*f1;"],
                            ["qn -= fd00*f0+fd01*f1;", "pn -= fd10*f0+fd11*f1;"]),
     }
@@ -130,13 +131,14 @@ def variant : RV.Orbit.Variant where
   acoshClamp := %s
   asymLe := %s
   palNewton := %s
+  aStrict := %s
 
 end RV.Gen.C11
 """ % (n_c, lean_list(ctabs["Ncart"]), lean_list(ctabs["Norb"]), lean_list(ctabs["Nnonpal"]),
        lean_list(ctabs["Npal"]), lean_list(ctabs["Nlong"]), n_c,
        n_p, lean_list(ptabs["cart"]), lean_list(ptabs["orbi"]), lean_list(ptabs["nonpal"]),
        lean_list(ptabs["pal"]), lean_list(ptabs["long"]), n_p, lean_list(ptabs["peri"]),
-       str(var["m2eCopysign"]).lower(), str(var["acoshClamp"]).lower(), str(var["asymLe"]).lower(), str(var["palNewton"]).lower())
+       str(var["m2eCopysign"]).lower(), str(var["acoshClamp"]).lower(), str(var["asymLe"]).lower(), str(var["palNewton"]).lower(), str(var["aStrict"]).lower())
     info = {"c_tabs": ctabs, "py_tabs": ptabs, "c_tokens": tokens, "c_errors": errs, "py_kwargs": kwargs,
             "c_increments": n_c, "py_entries": n_p, "variant": var}
     return text, info
